@@ -12,8 +12,10 @@
 //! Oracle (independent of the Lean model): the cache content must equal a reference map that
 //! loses entries only by `rem` and by evictions the listener allowed (answer `false`); `get`
 //! returns the reference value; pinned resident keys stay resident; resident count stays within
-//! capacity + currently pinned + 32 (Notify, protocol followed) resp. capacity + entries that may
-//! sit in the pinned region + 32; no call panics.  Notify, protocol followed, additionally the bound of
+//! capacity + currently pinned + 32 (Notify, protocol followed), within capacity + currently pinned + 32 + releases
+//! since the last maintenance round (Poll, pin token = key: exactly `bounded_poll` of Props/C16.lean — a polling cache
+//! cannot know about a release before it polls again) and within capacity + entries that may sit in the pinned region
+//! + 32 (any listener, `bounded_poll_partial`); no call panics.  Notify, protocol followed, additionally the bound of
 //! `bounded_notify_buffered` (Props/C16.lean): resident <= capacity + currently pinned + messages buffered since the
 //! last maintenance pass — in particular right after a pass with nothing pinned: resident <= capacity ("every resident
 //! unpinned entry is tracked by the policy, i.e. evictable"; a surplus there can never be evicted).
@@ -144,7 +146,9 @@ fn caps_float(capacity: usize) -> (usize, usize, usize) {
 
 type Cache = TinyLFU<u64, u64, Lsn>;
 
-/// finding F15 (Poll: no fixed slack over the currently pinned count): the adversary, and any other Poll history that shows it
+/// FIXED finding F15 (Poll: the trim stopped at the first still-pinned entry of the pinned region, so released entries
+/// behind it survived maintenance rounds): the adversary, and any other Poll history that exceeds the bound of
+/// `bounded_poll` (capacity + currently pinned + 32 + releases since the last maintenance round).  Plain violations.
 const SIG_F15: &str = "bound-poll:excess-grows-with-blockers";
 const SIG_F15_RANDOM: &str = "bound-poll:history-exceeds-capacity+pinned+32";
 /// Notify, protocol followed (`bounded_notify_buffered`): resident > capacity + currently pinned + buffered messages …
@@ -154,7 +158,7 @@ const SIG_RESIDUE: &str = "unevictable-residue:resident-unpinned-entries-tracked
 
 // ------------------------------------------------------------------ one single-thread case
 #[derive(Default, Clone)]
-struct Stats { ops: BTreeMap<&'static str, u64>, evictions: u64, kept_pinned: u64, maint_rounds: u64, max_excess: i64, max_excess_notify: i64, max_excess_poll: i64, max_resident: u64, panics: u64 }
+struct Stats { ops: BTreeMap<&'static str, u64>, evictions: u64, kept_pinned: u64, maint_rounds: u64, max_excess: i64, max_excess_notify: i64, max_excess_poll: i64, max_excess_poll_rel: i64, max_resident: u64, panics: u64 }
 
 struct Fail { sig: String, desc: String, at: usize }
 
@@ -164,6 +168,8 @@ struct Sim {
     max_cap: usize, universe_hi: u64, evicted_any: bool, kept_any: bool,
     /// first point where a Poll history exceeds capacity + currently pinned + 32 (finding F15): recorded, the history goes on
     soft: Option<(String, String, usize)>, step_no: usize,
+    /// releases (`unpin t` / `unpinn k`) since the last maintenance round — `Cache.rel` of the model
+    rel: u64,
 }
 
 impl Sim {
@@ -172,13 +178,13 @@ impl Sim {
         let cache = Cache::new(hdr.cap, if hdr.poll { UnpinStrategy::Poll } else { UnpinStrategy::Notify }, MaintenanceMode::Piggyback);
         let (w, _, m) = caps_float(hdr.cap);
         Sim { hdr, cache, refmap: HashMap::new(), pins: HashMap::new(), maybe_region: HashSet::new(), quiet_unpin_seen: false, msgs: 0,
-              handles: vec![], lock_ids: HashMap::new(), next_id: 0, max_cap: w + m, universe_hi, evicted_any: false, kept_any: false, soft: None, step_no: 0 }
+              handles: vec![], lock_ids: HashMap::new(), next_id: 0, max_cap: w + m, universe_hi, evicted_any: false, kept_any: false, soft: None, step_no: 0, rel: 0 }
     }
     fn probe(&self, k: u64) -> Option<u64> { self.cache.entry(k, |e| match e { Entry::Occupied(o) => Some(*o.get()), Entry::Vacant(_) => None }) }
     fn pinned_kv(&self, k: u64, v: u64) -> bool { let t = if self.hdr.tokv { v } else { k }; self.pins.get(&t).copied().unwrap_or(0) > 0 }
     fn pin(&mut self, t: u64) { *self.pins.entry(t).or_insert(0) += 1; pin_tok(t); }
     fn unpin(&mut self, t: u64) { if let Some(c) = self.pins.get_mut(&t) { if *c > 0 { *c -= 1; } if *c == 0 { self.pins.remove(&t); } } unpin_tok(t); }
-    fn pushed(&mut self, st: &mut Stats) { self.msgs += 1; if self.msgs > 32 { self.msgs = 0; st.maint_rounds += 1; } }
+    fn pushed(&mut self, st: &mut Stats) { self.msgs += 1; if self.msgs > 32 { self.msgs = 0; self.rel = 0; st.maint_rounds += 1; } }
 
     /// Executes one op on the real cache; returns the canonical answer (without the ev suffix).
     fn exec(&mut self, op: &O, st: &mut Stats) -> String {
@@ -194,8 +200,8 @@ impl Sim {
                 match r { Some(w) => { self.pushed(st); format!("removed {w}") } None => "absent".into() } }
             O::Peek(k) => match self.probe(k) { Some(v) => format!("some {v}"), None => "none".into() },
             O::Pin(t) => { self.pin(t); "ok".into() }
-            O::Unpin(t) => { self.unpin(t); "ok".into() }
-            O::UnpinN(k) => { self.unpin(k); self.cache.unpin(k); self.pushed(st); "ok".into() }
+            O::Unpin(t) => { self.unpin(t); self.rel += 1; "ok".into() }
+            O::UnpinN(k) => { self.unpin(k); self.rel += 1; self.cache.unpin(k); self.pushed(st); "ok".into() }
             O::Notify(k) => { self.cache.unpin(k); self.pushed(st); "ok".into() }
             // get_lock_instance: value = lock id, a handle is one reference (pin) of that id
             O::Acq(q) => {
@@ -277,8 +283,11 @@ impl Sim {
                 (SIG_BUFFERED.to_string(), format!("after `{}`: resident {resident} > capacity {} + currently pinned {pinned_now} + buffered messages {msgs}", op.text(), self.max_cap), self.step_no)
             });
         }
-        if self.hdr.poll && excess > 32 && self.soft.is_none() {
-            self.soft = Some((SIG_F15_RANDOM.to_string(), format!("Poll: resident {resident} > capacity {} + currently pinned {pinned_now} + 32", self.max_cap), self.step_no)); }
+        // Poll, pin token = key: exactly the bound of `bounded_poll` (any history, silent releases included)
+        let rel = self.rel as i64;
+        if self.hdr.poll && !self.hdr.tokv { st.max_excess_poll_rel = st.max_excess_poll_rel.max(excess - rel); }
+        if self.hdr.poll && !self.hdr.tokv && excess > 32 + rel {
+            flag(SIG_F15_RANDOM, format!("Poll: resident {resident} > capacity {} + currently pinned {pinned_now} + 32 + releases since the last maintenance round {rel}", self.max_cap)); }
         let region = self.maybe_region.iter().filter(|k| self.refmap.contains_key(k)).count() as i64;
         if resident > self.max_cap as i64 + region + 32 { flag("bound-partial", format!("resident {resident} > capacity {} + possibly-in-pinned-region {region} + 32", self.max_cap)); }
         fail
@@ -712,19 +721,22 @@ fn main() {
         // the Lean witness history of `Policy::unpin`'s "only when the storage confirmed" condition, on the real cache
         { let (h, ops) = canonical_repin(); let co = replay_ops(&h, &ops, &mut st); emit(&co, &mut out); evals += 1;
           for fl in [co.soft_also, co.fail].into_iter().flatten() { fails.push((fl.sig.clone(), format!("[repinHistory of Props/C16.lean] {}", fl.desc), case_text(&h, &ops[..=fl.at.min(ops.len() - 1)]))); } }
-        // finding F15, canonical: 2 blockers, 2 rounds (= `pollAdversary` of Props/C16.lean)
-        { let (h, ops) = poll_adversary(2, 2); let mut st2 = Stats::default();
+        // the histories of the FIXED finding F15 must stay within the bound of `bounded_poll` (a failure here = the defect is
+        // back): 2 blockers, 2 rounds (the shape of `pollAdversary` of Props/C16.lean) and 5 blockers, 4 rounds (the shape of `pollAdversary5`, the
+        // history of `bounded_poll_needs_whole_region_trim`: 95 resident > 2 + 5 + 32 + 33 with the code before the fix)
+        for (b, rounds) in [(2u64, 2u64), (5, 4)] { let (h, ops) = poll_adversary(b, rounds); let mut st2 = Stats::default();
           let co = replay_ops(&h, &ops, &mut st2); emit(&co, &mut out); evals += 1;
           match &co.fail {
-              Some(fl) if fl.sig == SIG_F15_RANDOM => fails.push((SIG_F15.to_string(), format!("[poll adversary, 2 blockers, 2 rounds] {}", fl.desc), case_text(&h, &ops[..=fl.at]))),
-              Some(fl) => fails.push((fl.sig.clone(), format!("[poll adversary, 2 blockers] {}", fl.desc), case_text(&h, &ops[..=fl.at]))),
+              Some(fl) if fl.sig == SIG_F15_RANDOM => fails.push((SIG_F15.to_string(), format!("[history of fixed finding F15: poll adversary, {b} blockers, {rounds} rounds] {}", fl.desc), case_text(&h, &ops[..=fl.at]))),
+              Some(fl) => fails.push((fl.sig.clone(), format!("[poll adversary, {b} blockers] {}", fl.desc), case_text(&h, &ops[..=fl.at]))),
               None => {} } }
         // the family on the real cache (measurement): excess of resident over capacity + pinned, per number of blockers
         for b in [0u64, 2, 5, 10, 20, 40] {
             let (h, ops) = poll_adversary(b, b + 6); let mut st2 = Stats::default();
             let co = replay_ops(&h, &ops, &mut st2); emit(&co, &mut out); evals += 1;
             poll_probe.push((b, st2.max_excess_poll));
-            if let Some(fl) = &co.fail { if fl.sig != SIG_F15_RANDOM { fails.push((fl.sig.clone(), format!("[poll adversary b={b}] {}", fl.desc), case_text(&h, &ops[..=fl.at]))); } }
+            if let Some(fl) = &co.fail { let sig = if fl.sig == SIG_F15_RANDOM { SIG_F15.to_string() } else { fl.sig.clone() };
+                fails.push((sig, format!("[poll adversary b={b}] {}", fl.desc), if b <= 10 { case_text(&h, &ops[..=fl.at]) } else { String::new() })); }
         }
         // the write-behind family (LFU_WB = cases per shard, LFU_WB_LONG = longer histories: used by the plugin's boosted search)
         let envn = |k: &str| std::env::var(k).ok().and_then(|x| x.parse::<u64>().ok());
@@ -737,7 +749,6 @@ fn main() {
             *strat.entry(if poll { "write-behind family (Poll)" } else { "write-behind family (Notify)" }).or_insert(0) += 1;
             if co.nontrivial { distinct.insert(hasher.hash_one(&case_text(&h, &ops))); }
             for fl in [co.soft_also, co.fail].into_iter().flatten() {
-                if fl.sig == SIG_F15_RANDOM { continue; }   // known finding F15 (silent releases): documented by the adversary and the random Poll histories
                 if fails.iter().filter(|f| f.0 == fl.sig).count() < 2 && shrunk_wb < 4 {
                     shrunk_wb += 1;
                     let small = shrink(&h, ops[..=fl.at.min(ops.len() - 1)].to_vec(), &fl.sig);
@@ -793,8 +804,8 @@ fn main() {
     let fj: Vec<String> = fails.iter().map(|(s, d, c)| format!("{{\"sig\":{},\"desc\":{},\"case\":{}}}", jstr(s), jstr(d), jstr(c))).collect();
     let sj: Vec<String> = samples.iter().map(|s| jstr(s)).collect();
     let report = format!(
-        "{{\"evaluations\":{evals},\"distinct_nontrivial\":{},\"rule\":{},\"samples\":[{}],\"distribution\":{{\"ops\":{},\"capacity\":{},\"strategy\":{},\"length\":{},\"evictions\":{},\"eviction_attempts_refused_pinned\":{},\"maintenance_rounds\":{},\"max_resident\":{},\"max_resident_minus_capacity_minus_pinned\":{},\"max_excess_notify_protocol_followed\":{},\"max_excess_poll\":{},\"poll_adversary_excess_by_blockers\":{{{}}},\"panics\":{}}},\"oracle_failures\":[{}]}}",
+        "{{\"evaluations\":{evals},\"distinct_nontrivial\":{},\"rule\":{},\"samples\":[{}],\"distribution\":{{\"ops\":{},\"capacity\":{},\"strategy\":{},\"length\":{},\"evictions\":{},\"eviction_attempts_refused_pinned\":{},\"maintenance_rounds\":{},\"max_resident\":{},\"max_resident_minus_capacity_minus_pinned\":{},\"max_excess_notify_protocol_followed\":{},\"max_excess_poll\":{},\"max_excess_poll_minus_releases_since_last_round\":{},\"poll_adversary_excess_by_blockers\":{{{}}},\"panics\":{}}},\"oracle_failures\":[{}]}}",
         distinct.len(), jstr("a history is non-trivial when the cache evicted at least one entry and the listener refused at least one eviction of a pinned entry"),
-        sj.join(","), jmap(&st.ops), jmap(&caps_hist), jmap(&strat), jmap(&len_hist), st.evictions, st.kept_pinned, st.maint_rounds, st.max_resident, st.max_excess, st.max_excess_notify, st.max_excess_poll, poll_probe.iter().map(|(b, e)| format!("\"{b}\":{e}")).collect::<Vec<_>>().join(","), st.panics, fj.join(","));
+        sj.join(","), jmap(&st.ops), jmap(&caps_hist), jmap(&strat), jmap(&len_hist), st.evictions, st.kept_pinned, st.maint_rounds, st.max_resident, st.max_excess, st.max_excess_notify, st.max_excess_poll, st.max_excess_poll_rel, poll_probe.iter().map(|(b, e)| format!("\"{b}\":{e}")).collect::<Vec<_>>().join(","), st.panics, fj.join(","));
     out.finish(&report);
 }
